@@ -13,7 +13,7 @@
  * One case per input line (see ocaml/drv_c09.ml for the fields; the last field here is
  * the schedule = preferred thread ids).  Every case runs in a forked child so that a
  * final state with parked threads is simply thrown away.  Output: one line per case,
- *   I.<mask>.<obs>.<efd> {<tid>.<label>.<mask>.<obs>.<efd>.<events>} Q.<verdict> h<i>=<published>/<seen>/<cbs>/<begun>/<state>...
+ *   I.<mask>.<obs>.<efd> {<tid>.<label>.<mask>.<obs>.<efd>.<events>.<acks>} Q.<verdict> h<i>=<published>/<seen>/<cbs>/<begun>/<state>...
  */
 #define _GNU_SOURCE
 #include <errno.h>
@@ -51,7 +51,8 @@ int __real_sched_yield(void);
 enum { ST_RUN, ST_POLL, ST_DONE, ST_STUCK };
 
 /* ---- the case ---- */
-static int use_hooks, nh, nthreads /* incl. loop */, sig_tid = -1, sig_target = -1;
+static int use_hooks, nh, nullmask /* handles created with a NULL callback */,
+           nthreads /* incl. loop */, sig_tid = -1, sig_target = -1;
 static uint64_t e0;
 static char lops[64]; static int largs[64]; static int nlops;
 static int sscript[MAXT][MAXSEND]; static int slen[MAXT]; static int sidx[MAXT];
@@ -212,10 +213,26 @@ static void choose_and_pass(int noreturn) {
 
 /* The holder of the token arrives at a schedule point: record the step it has just
  * finished, then let the schedule decide. */
+static int last_pending[MAXH];
+static char ackbuf[256];
+
 static void arrive(const char* label, int noreturn) {
+  int i; size_t al = 0;
+  /* A handle without a callback: the only trace of the loop consuming its wake-up is the
+   * pending flag going from 1 to 0 during a step of the loop thread.  Nobody else ran in
+   * between, so [published] now is what that wake-up covers. */
+  ackbuf[0] = 0;
+  for (i = 0; i < nh; i++) {
+    if (((nullmask >> i) & 1) && cur_tid == 0 && last_pending[i] && !ah[i].pending) {
+      seen[i] = atomic_load(&published[i]);
+      al += snprintf(ackbuf + al, sizeof(ackbuf) - al, "%sa%d=%llu", al ? "+" : "", i,
+                     (unsigned long long) seen[i]);
+    }
+    last_pending[i] = ah[i].pending ? 1 : 0;
+  }
   out(" %d.%s.%x.", cur_tid, label, enabled_mask());
   print_obs();
-  out(".%llu.%s", (unsigned long long) shadow, evlen ? evbuf : "-");
+  out(".%llu.%s.%s", (unsigned long long) shadow, evlen ? evbuf : "-", al ? ackbuf : "-");
   evlen = 0; evbuf[0] = 0;
   choose_and_pass(noreturn);
 }
@@ -389,6 +406,7 @@ static int parse_case(char* line) {
   if (nf < 9) return -1;
   use_hooks = atoi(trim(f[0]));
   nh = atoi(trim(f[2]));
+  nullmask = strchr(f[2], ':') ? atoi(strchr(f[2], ':') + 1) : 0;
   e0 = strtoull(trim(f[3]), NULL, 10);
   if (nh < 1 || nh > MAXH) return -1;
   { char* save = NULL; char* t;
@@ -440,7 +458,7 @@ static void run_case(char* line) {
   if (parse_case(line) != 0) fatal("parse");
   if (uv_loop_init(&loop) != 0) fatal("uv_loop_init");
   for (i = 0; i < nh; i++) {
-    if (uv_async_init(&loop, &ah[i], async_cb) != 0) fatal("uv_async_init");
+    if (uv_async_init(&loop, &ah[i], (nullmask >> i) & 1 ? NULL : async_cb) != 0) fatal("uv_async_init");
     ah[i].data = (void*) (intptr_t) i;
   }
   g_efd = loop.async_io_watcher.fd;
